@@ -9,6 +9,8 @@ R15.2 every store to total_length is the constant 0 or `load total_length + zext
       derived from a load of total_length is truncated below 64 bits except after masking with a constant that
       fits the narrower type (the block-offset computation); the *8 / <<3 that forms the bit length is a 64-bit
       operation and reaches the stored length field of the padding.
+R15.4 in every assembly manager the minimum over the packed lane-length words is an unsigned minimum (a single
+      submit of 2^31 bytes or more sets bit 31 of its word).
 R15.3 in the SHA-512 hash_pad the upper 8 bytes of the 16-byte length field are written (zero) together with
       the lower 8 (synchronous base variant: zero-fill loop, not judged).
 """
@@ -222,6 +224,28 @@ def run(chk):
             chk.obligation("R15.3", ok, key=src, sample={"unit": src})
             if not ok:
                 chk.finding(Finding("R15.3", src, "hash_pad", "upper-length-bytes", "the upper 8 bytes of SHA-512's 16-byte length field are not zeroed on the path that writes the lower 8", loc=src))
+    # ---- R15.4 (object code): the managers' minimum over the packed lane-length words is unsigned
+    import x86
+    import selftest_x86
+    allunits, _s = build.build("default")
+    lib = x86.Library([u for u in allunits if u["kind"] == "asm" and re.search(r"_mb_mgr_(submit|flush)_|_sb_mgr_(submit|flush)_", u["src"])])
+    n_min = n_mgr = 0
+    for key, name in lib.entry_list:
+        if not re.match(r"^_\w+_(mb|sb)_mgr_(submit|flush)_\w+$", name):
+            continue
+        n_mgr += 1
+        f = lib.func(key)
+        for b in f.blocks.values():
+            for i in b:
+                base = i.op[1:] if i.op.startswith("V") else i.op
+                if base.startswith(("PMINU", "PMINS", "PMAXS")):
+                    n_min += 1
+                    ok = base.startswith("PMINU")
+                    chk.obligation("R15.4", ok, key=(name, i.addr), sample={"function": name, "insn": i.text.strip()})
+                    if not ok:
+                        chk.finding(Finding("R15.4", f.obj.name, name, "signed-min", "`%s`: the minimum over the packed lane-length words must be unsigned; a submit of 2^31 bytes or more sets the top bit of its word and a signed minimum then picks the wrong lane" % i.text.strip(), loc=f.obj.line_of(f.sec, i.addr)))
+    chk.floor("assembly managers scanned for the lane minimum", n_mgr, 40)
+    chk.floor("lane-minimum instructions", n_min, 60)
     chk.floor("64-bit total_length updates", n_adds, 28)
     chk.floor("length-field stores", n_len_stores, 28)
     return ("IR def-use analysis of %d ctx units: 64-bit total_length member, %d 64-bit updates, no lossy truncation on any chain from total_length to the padded "
